@@ -19,122 +19,159 @@ const W: usize = 4;
 const H: usize = 3;
 const D: usize = 2;
 const C: usize = 2;
-type G = ArrayGrid<i64, W, H, D, C>;
+macro_rules! c16_impl {
+    ($m:ident, $t:ty) => {
+        pub mod $m {
+            use super::*;
+            type G = ArrayGrid<$t, W, H, D, C>;
 
-enum Node {
-    Data(AdjustableData<i64>),
-    Time(AdjustableTime<i64>),
-    Space(AdjustableSpace<i64>),
-    SpaceTime(AdjustableSpaceTime<i64>),
+            enum Node {
+                Data(AdjustableData<$t>),
+                Time(AdjustableTime<$t>),
+                Space(AdjustableSpace<$t>),
+                SpaceTime(AdjustableSpaceTime<$t>),
+            }
+
+            pub struct Impl {
+                node: Option<Node>,
+                grid: Option<G>,
+                dim: usize,
+            }
+
+            impl Default for Impl {
+                fn default() -> Self {
+                    Impl { node: None, grid: None, dim: 0 }
+                }
+            }
+
+            fn ints(s: &str) -> Vec<$t> {
+                s.split(',').map(p::<$t>).collect()
+            }
+
+            impl Impl {
+                fn coords(&self) -> String {
+                    let v: Vec<$t> = match self.node.as_ref().unwrap() {
+                        Node::Data(n) => vec![*n.data()],
+                        Node::Time(n) => vec![*n.time_unit()],
+                        Node::Space(n) => vec![*n.x(), *n.y(), *n.z()],
+                        Node::SpaceTime(n) => vec![*n.x(), *n.y(), *n.z(), *n.time_unit()],
+                    };
+                    v.iter().map(|x| x.to_string()).collect::<Vec<_>>().join(",")
+                }
+            }
+
+            impl Interp for Impl {
+                fn case(&mut self, a: &[&str]) -> String {
+                    // case <n> <kind> <gridkind> <coords>
+                    let c = ints(a[3]);
+                    self.node = Some(match a[1] {
+                        "data" => Node::Data(AdjustableData::new(7, c[0])),
+                        "time" => Node::Time(AdjustableTime::new(7, TimeScale::Second, c[0])),
+                        "space" => Node::Space(AdjustableSpace::new(7, c[0], c[1], c[2])),
+                        "spacetime" => Node::SpaceTime(AdjustableSpaceTime::new(7, TimeScale::Second, c[3], c[0], c[1], c[2])),
+                        _ => return "bad-kind".into(),
+                    });
+                    let (ty, dim) = match a[2] {
+                        "1d" => (ArrayType::Array1D, 1),
+                        "2d" => (ArrayType::Array2D, 2),
+                        "3d" => (ArrayType::Array3D, 3),
+                        "4d" => (ArrayType::Array4D, 4),
+                        _ => return "bad-grid".into(),
+                    };
+                    self.grid = Some(G::new(ty));
+                    self.dim = dim;
+                    format!("ok:{}", self.coords())
+                }
+
+                fn op(&mut self, op: &str, a: &[&str]) -> String {
+                    match op {
+                        "node" => {
+                            // fresh node of the case's kind with the given coordinates
+                            let c = ints(a[0]);
+                            let n = match self.node.as_ref().unwrap() {
+                                Node::Data(_) => Node::Data(AdjustableData::new(7, c[0])),
+                                Node::Time(_) => Node::Time(AdjustableTime::new(7, TimeScale::Second, c[0])),
+                                Node::Space(_) => Node::Space(AdjustableSpace::new(7, c[0], c[1], c[2])),
+                                Node::SpaceTime(_) => {
+                                    Node::SpaceTime(AdjustableSpaceTime::new(7, TimeScale::Second, c[3], c[0], c[1], c[2]))
+                                }
+                            };
+                            self.node = Some(n);
+                            format!("ok:{}", self.coords())
+                        }
+                        "grid" => {
+                            // fresh grid of the case's kind, then `x,y,z,t=v;…` stored through ArrayGrid::set
+                            let ty = match self.dim {
+                                1 => ArrayType::Array1D,
+                                2 => ArrayType::Array2D,
+                                3 => ArrayType::Array3D,
+                                _ => ArrayType::Array4D,
+                            };
+                            self.grid = Some(G::new(ty));
+                            if a[0] != "-" {
+                                for item in a[0].split(';') {
+                                    let (pt, v) = item.split_once('=').unwrap();
+                                    self.op("set", &[pt, v]);
+                                }
+                            }
+                            "ok".into()
+                        }
+                        "set" => {
+                            let c: Vec<usize> = a[0].split(',').map(p::<usize>).collect();
+                            let pt = match self.dim {
+                                1 => PointIndex::new1d(c[0]),
+                                2 => PointIndex::new2d(c[0], c[1]),
+                                3 => PointIndex::new3d(c[0], c[1], c[2]),
+                                _ => PointIndex::new4d(c[0], c[1], c[2], c[3]),
+                            };
+                            self.grid.as_ref().unwrap().set(pt, p::<$t>(a[1]));
+                            "ok".into()
+                        }
+                        "update" | "adjust" => {
+                            let g = self.grid.as_ref().unwrap();
+                            let upd = op == "update";
+                            let ok = match self.node.as_mut().unwrap() {
+                                Node::Data(n) => if upd { n.update(g).is_ok() } else { n.adjust(g).is_ok() },
+                                Node::Time(n) => if upd { n.update(g).is_ok() } else { n.adjust(g).is_ok() },
+                                Node::Space(n) => if upd { n.update(g).is_ok() } else { n.adjust(g).is_ok() },
+                                Node::SpaceTime(n) => if upd { n.update(g).is_ok() } else { n.adjust(g).is_ok() },
+                            };
+                            format!("{}:{}", if ok { "ok" } else { "err" }, self.coords())
+                        }
+                        _ => "bad-op".into(),
+                    }
+                }
+            }
+        }
+    };
 }
+c16_impl!(signed, i64);
+c16_impl!(unsigned, u64);
 
+/// `case <id> <kind> …` runs on `…<i64>`, `case <id> u<kind> …` (udata, utime, uspace, uspacetime) on `…<u64>`
+#[derive(Default)]
 pub struct C16 {
-    node: Option<Node>,
-    grid: Option<G>,
-    dim: usize,
-}
-
-impl Default for C16 {
-    fn default() -> Self {
-        C16 { node: None, grid: None, dim: 0 }
-    }
-}
-
-fn ints(s: &str) -> Vec<i64> {
-    s.split(',').map(p::<i64>).collect()
-}
-
-impl C16 {
-    fn coords(&self) -> String {
-        let v: Vec<i64> = match self.node.as_ref().unwrap() {
-            Node::Data(n) => vec![*n.data()],
-            Node::Time(n) => vec![*n.time_unit()],
-            Node::Space(n) => vec![*n.x(), *n.y(), *n.z()],
-            Node::SpaceTime(n) => vec![*n.x(), *n.y(), *n.z(), *n.time_unit()],
-        };
-        v.iter().map(|x| x.to_string()).collect::<Vec<_>>().join(",")
-    }
+    s: signed::Impl,
+    u: unsigned::Impl,
+    uns: bool,
 }
 
 impl Interp for C16 {
     fn case(&mut self, a: &[&str]) -> String {
-        // case <n> <kind> <gridkind> <coords>
-        let c = ints(a[3]);
-        self.node = Some(match a[1] {
-            "data" => Node::Data(AdjustableData::new(7, c[0])),
-            "time" => Node::Time(AdjustableTime::new(7, TimeScale::Second, c[0])),
-            "space" => Node::Space(AdjustableSpace::new(7, c[0], c[1], c[2])),
-            "spacetime" => Node::SpaceTime(AdjustableSpaceTime::new(7, TimeScale::Second, c[3], c[0], c[1], c[2])),
-            _ => return "bad-kind".into(),
-        });
-        let (ty, dim) = match a[2] {
-            "1d" => (ArrayType::Array1D, 1),
-            "2d" => (ArrayType::Array2D, 2),
-            "3d" => (ArrayType::Array3D, 3),
-            "4d" => (ArrayType::Array4D, 4),
-            _ => return "bad-grid".into(),
-        };
-        self.grid = Some(G::new(ty));
-        self.dim = dim;
-        format!("ok:{}", self.coords())
+        self.uns = a[1].starts_with('u');
+        if self.uns {
+            let mut b: Vec<&str> = a.to_vec();
+            b[1] = &a[1][1..];
+            self.u.case(&b)
+        } else {
+            self.s.case(a)
+        }
     }
-
     fn op(&mut self, op: &str, a: &[&str]) -> String {
-        match op {
-            "node" => {
-                // fresh node of the case's kind with the given coordinates
-                let c = ints(a[0]);
-                let n = match self.node.as_ref().unwrap() {
-                    Node::Data(_) => Node::Data(AdjustableData::new(7, c[0])),
-                    Node::Time(_) => Node::Time(AdjustableTime::new(7, TimeScale::Second, c[0])),
-                    Node::Space(_) => Node::Space(AdjustableSpace::new(7, c[0], c[1], c[2])),
-                    Node::SpaceTime(_) => {
-                        Node::SpaceTime(AdjustableSpaceTime::new(7, TimeScale::Second, c[3], c[0], c[1], c[2]))
-                    }
-                };
-                self.node = Some(n);
-                format!("ok:{}", self.coords())
-            }
-            "grid" => {
-                // fresh grid of the case's kind, then `x,y,z,t=v;…` stored through ArrayGrid::set
-                let ty = match self.dim {
-                    1 => ArrayType::Array1D,
-                    2 => ArrayType::Array2D,
-                    3 => ArrayType::Array3D,
-                    _ => ArrayType::Array4D,
-                };
-                self.grid = Some(G::new(ty));
-                if a[0] != "-" {
-                    for item in a[0].split(';') {
-                        let (pt, v) = item.split_once('=').unwrap();
-                        self.op("set", &[pt, v]);
-                    }
-                }
-                "ok".into()
-            }
-            "set" => {
-                let c: Vec<usize> = a[0].split(',').map(p::<usize>).collect();
-                let pt = match self.dim {
-                    1 => PointIndex::new1d(c[0]),
-                    2 => PointIndex::new2d(c[0], c[1]),
-                    3 => PointIndex::new3d(c[0], c[1], c[2]),
-                    _ => PointIndex::new4d(c[0], c[1], c[2], c[3]),
-                };
-                self.grid.as_ref().unwrap().set(pt, p::<i64>(a[1]));
-                "ok".into()
-            }
-            "update" | "adjust" => {
-                let g = self.grid.as_ref().unwrap();
-                let upd = op == "update";
-                let ok = match self.node.as_mut().unwrap() {
-                    Node::Data(n) => if upd { n.update(g).is_ok() } else { n.adjust(g).is_ok() },
-                    Node::Time(n) => if upd { n.update(g).is_ok() } else { n.adjust(g).is_ok() },
-                    Node::Space(n) => if upd { n.update(g).is_ok() } else { n.adjust(g).is_ok() },
-                    Node::SpaceTime(n) => if upd { n.update(g).is_ok() } else { n.adjust(g).is_ok() },
-                };
-                format!("{}:{}", if ok { "ok" } else { "err" }, self.coords())
-            }
-            _ => "bad-op".into(),
+        if self.uns {
+            self.u.op(op, a)
+        } else {
+            self.s.op(op, a)
         }
     }
 }
